@@ -335,7 +335,7 @@ def case_threshold(test, n, sname, seed):
       return ['%s(n=%d, %s) returned %r although n is below the documented minimum '
               '(InsufficientDataError expected)' % (nm, n, sname, str(res)[:60])]
     vals = [res] if isinstance(res, (int, float)) else [p for _, p in res]
-    if nm in ('BlockFrequency', 'LongestRuns', 'Frequency') and n <= 300000:
+    if nm in ('BlockFrequency', 'LongestRuns', 'Frequency') and n <= 1000000:
       e = rn.bits_of(v, n)
       if nm == 'BlockFrequency':
         m = 16
@@ -349,6 +349,10 @@ def case_threshold(test, n, sname, seed):
       if not _close(res, exp, 1e-8):
         return ['%s(n=%d, %s) = %r; SP 800-22 with the documented parameter choice gives %.12g'
                 % (nm, n, sname, res, exp)]
+    if sname in ('drbg', 'alt', 'per3'):
+      dv = _default_values(nm, rn.bits_of(v, n), n, res)
+      if dv:
+        return ['%s(n=%d, %s) %s' % (nm, n, sname, dv)]
     bad = [p for p in vals if not _inrange(p)]
     if bad and nm == 'RandomWalk' and n < 100 and all(1 < float(p) < 1.2 for p in bad):
       return []  # asymptotic cusum formula below NIST's recommended n >= 100
@@ -359,6 +363,63 @@ def case_threshold(test, n, sname, seed):
               (nm, n, sname, bad[0])]
     return []
   raise ValueError(test)
+
+
+UNIVERSAL_MIN_N = {6: 387840, 7: 904960, 8: 2068480, 9: 4654080, 10: 10342400}
+
+
+def _default_values(nm, e, n, res):
+  """Value / shape comparison for the tests whose *default* parameter is chosen from n (the
+  parameter ladders): which parameter must have been used follows from the documented rule,
+  the value from the SP 800-22 transcription. Returns a message or None."""
+  if nm == 'Serial' and 8 <= n <= 70000:
+    m_max = max(2, min(22, n.bit_length() - 4))
+    d = _named(res)
+    want = ['m=%d p-value%d' % (m, j) for m in range(2, m_max + 1) for j in (1, 2)]
+    if sorted(d) != sorted(want):
+      return 'returns results for %d values of m, 2.11.7 (m < log2(n) - 2) gives m = 2..%d' % (
+          len(d) // 2, m_max)
+    for m in sorted({2, m_max}):
+      p1, p2, d1, d2 = rn.serial(e, m)
+      for key, pe, st in (('m=%d p-value1' % m, p1, d1), ('m=%d p-value2' % m, p2, d2)):
+        if st > 0 and pe is not None and not _close(d[key], pe, 1e-7):
+          return '[%s] = %r; SP 800-22 gives %.12g' % (key, d[key], pe)
+  elif nm == 'ApproximateEntropy' and 8 <= n <= 70000:
+    bl = n.bit_length()
+    m_max = max(2, bl - 7) if n < 2**16 else bl - 8
+    d = _named(res)
+    if sorted(d) != sorted('m=%d' % m for m in range(2, m_max + 1)):
+      return 'returns %d results, the documented bound gives m = 2..%d' % (len(d), m_max)
+    for m in sorted({2, m_max}):
+      pe, _ = rn.apen(e, m)
+      if pe is not None and not _close(d['m=%d' % m], pe, 1e-7):
+        return '[m=%d] = %r; SP 800-22 gives %.12g' % (m, d['m=%d' % m], pe)
+  elif nm == 'NonOverlappingTemplateMatching' and 32 <= n <= 70000:
+    bs = n // 8
+    m = 10
+    for bound, mm_ in ((64, 2), (256, 3), (1024, 4), (2048, 5), (4096, 6), (8192, 7),
+                       (16384, 8), (32768, 9)):
+      if bs < bound:
+        m = mm_
+        break
+    d = _named(res)
+    temps = [t for t in range(2**m) if rn.is_nonoverlapping(t, m)]
+    if len(d) != len(temps):
+      return 'returns %d results, %d templates of length %d expected' % (len(d), len(temps), m)
+    for t in (temps[0], temps[-1]):
+      key = "template '%s'" % format(t, '0%db' % m)
+      # the library forms every full block of n // 8 bits (9 blocks for n = 63 etc.) and uses
+      # that count in the formula; which count is "right" below 64 bits is not asserted
+      nb = n // bs
+      pe = rn.nonoverlapping(e[:bs * nb], nb, m, t)
+      if not _close(d.get(key), pe, 1e-8):
+        return '[%s] = %r; SP 800-22 gives %.12g' % (key, d.get(key), pe)
+  elif nm == 'Universal' and n >= 387840:
+    L = max(l for l, b in UNIVERSAL_MIN_N.items() if b <= n)
+    pe = rn.universal(e[:(n // L) * L], L, 10 * 2**L)
+    if not _close(res, pe, 1e-7):
+      return '= %r; SP 800-22 with L = %d, Q = %d gives %.12g' % (res, L, 10 * 2**L, pe)
+  return None
 
 
 def thresholds(tests, ns, seed):
@@ -381,7 +442,7 @@ def thresholds(tests, ns, seed):
 
 
 def _threshold_lengths():
-  ts = {100, 128, 6272, 750000, 38 * 9, 38 * 1024, 387840, 2000, 102400, 32, 1032,
+  ts = {100, 128, 6272, 750000, 38 * 9, 38 * 1024, 387840, 904960, 2000, 102400, 32, 1032,
         16 * 100, 32 * 100, 64 * 100, 128 * 100, 20 * 100, 512, 2048, 8192, 16384, 32768,
         65536, 131072, 262144}
   ns = set()
